@@ -35,7 +35,7 @@ class BfsResult:
 
 
 def bfs(init_nodes, expand, max_depth, stride=97, max_states=None, deadline=None,
-        keep_paths=True, chunksize=None):
+        keep_paths=True, chunksize=None, stop_if=None):
     """init_nodes: list of (node, key).  expand(node) -> list of
     (label, next_node, key, [violation dict...], outcome).  States in which a violation
     was observed are reported and not expanded further."""
@@ -79,6 +79,11 @@ def bfs(init_nodes, expand, max_depth, stride=97, max_states=None, deadline=None
         res.levels.append(len(nxt))
         res.states = len(seen)
         frontier = nxt
+        if stop_if is not None and stop_if([v for _, v in res.violations]):
+            # level-synchronous: these are shortest counterexamples; a broken tree can have an unbounded
+            # state space (e.g. stale timers piling up), so do not try to finish the search
+            res.capped = f"stopped after depth {depth}: violations found"
+            break
         if max_states is not None and len(seen) > max_states:
             res.capped = f"state cap {max_states} exceeded at depth {depth}"
             break
@@ -129,7 +134,7 @@ class DevResult:
         self.instants = 0
 
 
-def deviations(run, k_max, base_cfgs, deadline=None, restrict=None, chunksize=None):
+def deviations(run, k_max, base_cfgs, deadline=None, restrict=None, chunksize=None, stop_if=None):
     """run((cfg, devs)) -> (violations, outcome, next_placements) where next_placements is a
     list of disturbances that may be appended to devs.  Level-synchronous over k.
     restrict(cfg, devs, placement, k) may veto a placement (used to thin k=2 in quick)."""
@@ -154,6 +159,9 @@ def deviations(run, k_max, base_cfgs, deadline=None, restrict=None, chunksize=No
         res.by_level.append(len(level))
         res.completed_k = k
         level = nxt
+        if stop_if is not None and stop_if([v for _, v in res.violations]):
+            res.capped = f"stopped after k={k}: violations found"
+            break
         if not level:
             break
     return res
